@@ -301,6 +301,23 @@ func (r *Request) transferError(err error) {
 
 // called from worker to handle packet/request
 func (r *Request) call(handlers Handlers, pkt requestPacket, alloc *allocator, orderID uint32, maxTxPacket uint32) responsePacket {
+	// A handle only accepts the request types it was opened for: a READ on a directory handle must not be
+	// answered with a NAME packet, nor a READDIR on a file handle with a DATA packet.
+	switch pkt.(type) {
+	case *sshFxpReadPacket:
+		if r.Method != "Get" && r.Method != "Open" {
+			return statusFromError(pkt.id(), errors.New("unexpected read packet"))
+		}
+	case *sshFxpWritePacket:
+		if r.Method != "Put" && r.Method != "Open" {
+			return statusFromError(pkt.id(), errors.New("unexpected write packet"))
+		}
+	case *sshFxpReaddirPacket:
+		if r.Method != "List" {
+			return statusFromError(pkt.id(), errors.New("unexpected dir packet"))
+		}
+	}
+
 	switch r.Method {
 	case "Get":
 		return fileget(handlers.FileGet, r, pkt, alloc, orderID, maxTxPacket)
